@@ -903,8 +903,20 @@ int __wrap_fcntl(int fd, int cmd, ...)
 	case F_SETFD:
 		v->cloexec = !!(arg & FD_CLOEXEC);
 		return 0;
-	case F_GETFL:
-		return v->nonblock ? O_NONBLOCK : 0;
+	case F_GETFL: {
+		/* access mode as Linux reports it: pipe ends are read-only / write-only, the descriptor objects the
+		   kernel creates (eventfd, timerfd, epoll) read-write; scripted user descriptors alternate, so that
+		   code which confuses F_GETFL with F_GETFD (O_WRONLY == FD_CLOEXEC == 1) is exercised */
+		int acc = O_RDWR;
+
+		if (v->kind == VK_PIPE_R)
+			acc = O_RDONLY;
+		else if (v->kind == VK_PIPE_W)
+			acc = O_WRONLY;
+		else if (v->kind == VK_SCRIPTED)
+			acc = (fd % 3 == 0) ? O_RDWR : (fd % 3 == 1) ? O_WRONLY : O_RDONLY;
+		return acc | (v->nonblock ? O_NONBLOCK : 0);
+	}
 	case F_SETFL:
 		v->nonblock = !!(arg & O_NONBLOCK);
 		return 0;
